@@ -3,9 +3,30 @@ import tops
 from engine import EngineRace
 
 
+class SharedRace(tops.Component):
+    """the shared pools, the task queue and the elastic buffers used by several goroutines the way several event loops
+    use them, under the race detector (run-time support of the audit theorem shared_state_atomic)"""
+    name = "sharedrace"
+    model = "engine"      # unused: no model side
+    with_model = False
+    race = True
+    overlay = None
+    ncases = (4, 24)
+
+    def gen_args(self, tier, seed):
+        n = self.ncases[0] if tier == "quick" else self.ncases[1]
+        return [["-seed", str(seed), "-cases", str(n)]]
+
+    def extra_env(self):
+        return {"VERIF_CASE_MARK": "1", "GORACE": "halt_on_error=0 exitcode=0"}
+
+    def nontrivial(self, cr):
+        return any(l.strip() == "done" for l in cr.impl)
+
+
 def main(tier, replay):
-    return tops.run("C05", [EngineRace()], tier,
-                    level_text="partial: (a) a Lean-checked audit (Props/C05.lean, `decide +kernel`) of the field-access table regenerated from the source by tools/cmd/access: every access made by the concurrency-safe API off the loop is atomic, reads a field that is never written after publication, is covered by a written justification, or is a recorded finding; (b) confinement is checked in the real engine lives (one goroutine per connection, no overlapping callbacks per loop). Not a proof in the Go memory model - no executable model can express that. Support: the engine lives run under the race detector while foreign goroutines hammer the concurrency-safe API from OnBoot / OnOpen on; every race report is an oracle failure",
+    return tops.run("C05", [EngineRace(), SharedRace()], tier,
+                    level_text="partial: (a) a Lean-checked audit (Props/C05.lean, `decide +kernel`) of the field-access table regenerated from the source by tools/cmd/access: every access made by the concurrency-safe API off the loop is atomic, reads a field that is never written after publication, is covered by a written justification, or is a recorded finding; (b) confinement is checked in the real engine lives (one goroutine per connection, no overlapping callbacks per loop). Not a proof in the Go memory model - no executable model can express that. Support: the engine lives run under the race detector while foreign goroutines hammer the concurrency-safe API from OnBoot / OnOpen on; every race report is an oracle failure; the shared pools, the task queue and the elastic buffers are driven by several goroutines under the race detector as well (component sharedrace)",
                     assumptions=["the access table abstracts the code (static calls, no aliasing analysis)", "happens-before through the task queue is argued from C13, not proved in the Go memory model"],
                     replay=replay,
                     partial_note="race freedom is audited (table) and tested (race detector), not proved; two race families are known findings")
